@@ -117,6 +117,11 @@ class M:
             return f"(BIsNone {self.v(c.left)})" if isinstance(c.ops[0], ast.Is) else f"(BNot (BIsNone {self.v(c.left)}))"
         if isinstance(c, ast.Compare) and len(c.ops) == 1 and isinstance(c.ops[0], (ast.In, ast.NotIn)):
             right = c.comparators[0]
+            if isinstance(right, ast.Name) and right.id in self.locals and getattr(self, "local_sets", False):
+                base = f"(BInLocal {self.locals.index(right.id)} {self.v(c.left)})"      # x in <a bound set>
+                return base if isinstance(c.ops[0], ast.In) else f"(BNot {base})"
+            if isinstance(right, ast.Call) and isinstance(right.func, ast.Attribute) and right.func.attr == "keys" and not right.args:
+                right = right.func.value          # x in d.keys()  ==  x in d
             t = self.selftab(right, TABLES)
             if t is None and isinstance(right, ast.Name) and right.id == "self":
                 t = "TNode"               # `n in self` is Hypergraph.__contains__: n in self._node
